@@ -3,7 +3,7 @@
    tree (see the model files). *)
 From Coq Require Import ZArith List Bool.
 From Common Require Import Res Str.
-From Untrusted Require Import Base Playlists Download Unwrap Tags Proofs_Playlists Proofs_Download Proofs_Unwrap Proofs_Tags.
+From Untrusted Require Import Base Playlists Download Unwrap Tags Stream Proofs_Playlists Proofs_Download Proofs_Unwrap Proofs_Tags Proofs_Stream.
 Import ListNotations.
 Open Scope Z_scope.
 
@@ -81,10 +81,33 @@ Theorem C20_wellformed_urilist_ascii :
     Forall ascii_line (l :: ls) ->
     match l with c :: _ => ascii_alpha c = true | [] => False end ->
     Forall (fun b => check_uri_ok o b = true) (l :: ls) ->
-    o_head50 o = HeadParseError -> o_head150 o = HeadParseError ->
+    o_head50 o = HeadParseError -> o_head150 o = HeadParseError -> o_head o = HeadParseError ->
     parse fx o (render_urilist (l :: ls)) = Ok (map Some (l :: ls)).
 Proof. exact wellformed_urilist_ascii_lemma. Qed.
 Print Assumptions C20_wellformed_urilist_ascii.
+
+(* T2 over TEXT: for every list of lines of Unicode scalar values (no line break, no
+   surrounding whitespace, not empty, not a comment), the UTF-8 encoded extended M3U / URI
+   list gives back exactly these strings.  Rests on decode (encode s) = s, proved for the
+   transcribed strict UTF-8 decoder. *)
+Theorem C20_utf8_decode_encode :
+  forall s, forallb scalar s = true -> utf8_decode (utf8_encode s) = Some s.
+Proof. exact decode_encode. Qed.
+Print Assumptions C20_utf8_decode_encode.
+
+Theorem C20_wellformed_m3u_text :
+  forall fx o (ls : list str),
+    Forall text_line ls -> parse fx o (render_m3u (map utf8_encode ls)) = Ok (map Some ls).
+Proof. exact wellformed_m3u_text_lemma. Qed.
+Print Assumptions C20_wellformed_m3u_text.
+
+Theorem C20_wellformed_urilist_text :
+  forall fx o (ls : list str),
+    Forall text_line ls -> Forall (fun s => check_uri_ok o s = true) ls ->
+    no_header fx o (render_urilist (map utf8_encode ls)) ->
+    parse fx o (render_urilist (map utf8_encode ls)) = Ok (map Some ls).
+Proof. exact wellformed_urilist_text_lemma. Qed.
+Print Assumptions C20_wellformed_urilist_text.
 
 (* T2, PLS over the abstract configparser result *)
 Theorem C20_wellformed_pls :
@@ -116,6 +139,36 @@ Theorem C20_wellformed_asx :
 Proof. exact wellformed_asx_lemma. Qed.
 Print Assumptions C20_wellformed_asx.
 
+(* T2 for XSPF / ASX with no detector hypotheses: after the fix the detectors look at the
+   root element of the whole document, so a document whose expat outcomes are consistent
+   (first start event = root of the tree) gives back its locations whatever precedes the
+   root and whatever the encoding *)
+Theorem C20_wellformed_xspf_full :
+  forall o data locs,
+    detect_extm3u data = false -> detect_pls data = false ->
+    o_head o = HeadTag (xtag (xspf_doc locs)) -> o_xml o = XmlTree (xspf_doc locs) ->
+    parse true o data = Ok (map Some locs).
+Proof. exact wellformed_xspf_full_lemma. Qed.
+Print Assumptions C20_wellformed_xspf_full.
+
+Theorem C20_wellformed_asx_full :
+  forall o data hrefs,
+    detect_extm3u data = false -> detect_pls data = false ->
+    o_head o = HeadTag (xtag (asx_doc hrefs)) -> o_xml o = XmlTree (asx_doc hrefs) ->
+    Forall (fun h => strip h = h) hrefs ->
+    parse true o data = Ok (map Some hrefs).
+Proof. exact wellformed_asx_full_lemma. Qed.
+Print Assumptions C20_wellformed_asx_full.
+
+(* the pinned prefix sniffing loses a well-formed ASX document with an XML declaration *)
+Theorem C20_sniffing_pinned_refuted :
+  o_head o_asx_decl = HeadTag (xtag (asx_doc [[97]])) /\ o_xml o_asx_decl = XmlTree (asx_doc [[97]])
+  /\ detect_extm3u ASX_DECL_DOC = false /\ detect_pls ASX_DECL_DOC = false
+  /\ parse false o_asx_decl ASX_DECL_DOC = Ok []
+  /\ parse true o_asx_decl ASX_DECL_DOC = Ok [Some [97]].
+Proof. exact sniffing_pinned_refuted_lemma. Qed.
+Print Assumptions C20_sniffing_pinned_refuted.
+
 (* non-vacuity of the T2 hypotheses *)
 Theorem C20_wellformed_nonvacuous :
   Forall safe_line [(ex_l1, ex_l1); (ex_l2, ex_s2)]
@@ -130,10 +183,10 @@ Print Assumptions C20_wellformed_nonvacuous.
    and every body (finite or endless), the check passed after each chunk but the last one
    read, so the time spent before the last chunk started is within the timeout *)
 Theorem C20_download_deadline_every_chunk :
-  forall clock timeout_ms more fuel,
-    let n := snd (chunks clock timeout_ms more fuel O) in
-    (forall i, (1 <= i < n)%nat -> late clock timeout_ms i = false)
-    /\ (0 <= timeout_ms -> (1 <= n)%nat -> 1000 * (clock (n - 1)%nat - clock O) <= timeout_ms).
+  forall unit clock timeout_ms more fuel,
+    let n := snd (chunks unit clock timeout_ms more fuel O) in
+    (forall i, (1 <= i < n)%nat -> late unit clock timeout_ms i = false)
+    /\ (0 <= timeout_ms -> (1 <= n)%nat -> unit * (clock (n - 1)%nat - clock O) <= timeout_ms).
 Proof. exact download_deadline_every_chunk_lemma. Qed.
 Print Assumptions C20_download_deadline_every_chunk.
 
@@ -141,16 +194,16 @@ Print Assumptions C20_download_deadline_every_chunk.
    loop has ended (fuel j is enough), even for an endless body: at most one chunk is read
    after the deadline passed *)
 Theorem C20_download_bounded :
-  forall clock timeout_ms more fuel j,
-    late clock timeout_ms j = true -> (1 <= j <= fuel)%nat ->
-    fst (chunks clock timeout_ms more fuel O) <> DlOutOfFuel
-    /\ (snd (chunks clock timeout_ms more fuel O) <= j)%nat.
+  forall unit clock timeout_ms more fuel j,
+    late unit clock timeout_ms j = true -> (1 <= j <= fuel)%nat ->
+    fst (chunks unit clock timeout_ms more fuel O) <> DlOutOfFuel
+    /\ (snd (chunks unit clock timeout_ms more fuel O) <= j)%nat.
 Proof. exact download_bounded_lemma. Qed.
 Print Assumptions C20_download_bounded.
 
 Theorem C20_download_nonvacuous :
-  chunks (fun i => 250 * Z.of_nat i) 1000000 (fun _ => true) 100 O = (DlSlow, 5%nat)
-  /\ late (fun i => 250 * Z.of_nat i) 1000000 5 = true.
+  chunks 1 (fun i => 250 * Z.of_nat i) 1000 (fun _ => true) 100 O = (DlSlow, 5%nat)
+  /\ late 1 (fun i => 250 * Z.of_nat i) 1000 5 = true.
 Proof. exact trickle_example. Qed.
 Print Assumptions C20_download_nonvacuous.
 
@@ -158,12 +211,12 @@ Print Assumptions C20_download_nonvacuous.
    and every finite set of URIs closed under the walk and containing the start *)
 Theorem C20_unwrap_terminates :
   forall fx scan get join clock timeout (nodes : list uri) start,
-    In start nodes -> closed get join nodes ->
+    In start nodes -> closed fx get join nodes ->
     let r := unwrap fx scan get join clock timeout (S (length nodes)) start in
     fst r <> OutOfFuel
     /\ NoDup (scanned (snd r)) /\ NoDup (downloaded (snd r))
-    /\ Forall (fetch_ok clock (clock O + timeout)) (snd r)
-    /\ (all_playlists scan get join nodes -> exists w, fst r = NoStream w)
+    /\ Forall (fetch_ok clock (deadline_of fx clock timeout)) (snd r)
+    /\ (all_playlists fx scan get join nodes -> exists w, fst r = NoStream w)
     /\ (fx = true -> forall e, fst r <> Raised e).
 Proof. exact unwrap_terminates_lemma. Qed.
 Print Assumptions C20_unwrap_terminates.
@@ -172,11 +225,39 @@ Print Assumptions C20_unwrap_terminates.
    reading k0 on, no fetch is issued from a reading >= k0 *)
 Theorem C20_no_fetch_after_deadline :
   forall fx scan get join clock timeout fuel start k0,
-    (forall j, (k0 <= j)%nat -> clock O + timeout < clock j) ->
+    (forall j, (k0 <= j)%nat -> deadline_of fx clock timeout < clock j) ->
     Forall (fun f => (fetch_tick f < k0)%nat)
            (snd (unwrap fx scan get join clock timeout fuel start)).
 Proof. exact no_fetch_after_deadline_lemma. Qed.
 Print Assumptions C20_no_fetch_after_deadline.
+
+(* the whole chain of nested playlists: every fetch starts within the configured timeout
+   and is handed exactly the time left; if fetches return within what they were handed
+   plus slack, all work ends by clock 0 + timeout + slack (clock and timeout in the same
+   units - which the fixed code ensures by converting the millisecond setting) *)
+Theorem C20_unwrap_chain_deadline :
+  forall scan get join clock timeout fuel start slack,
+    let log := snd (unwrap true scan get join clock timeout fuel start) in
+    (forall f, In f log ->
+       clock (S (fetch_tick f)) <= clock (fetch_tick f) + fetch_timeout f + slack) ->
+    forall f, In f log ->
+      clock (fetch_tick f) <= clock O + timeout
+      /\ fetch_timeout f = clock O + timeout - clock (fetch_tick f)
+      /\ clock (S (fetch_tick f)) <= clock O + timeout + slack.
+Proof. exact unwrap_chain_deadline_lemma. Qed.
+Print Assumptions C20_unwrap_chain_deadline.
+
+(* refuted for the pinned code (milliseconds added to seconds): clock in ms, timeout
+   1000 ms, every scan returns within what it was handed, yet a scan is started 1800 ms
+   in and a stream is found at 2700 ms; the fixed code gives up *)
+Theorem C20_unwrap_chain_deadline_pinned_refuted :
+  let r := unwrap false ex3_scan ex3_get ex3_join ex3_clock 1000 4 (ex3_uri 0) in
+  fst r = Found (ex3_uri 2) false
+  /\ honest_pinned_b ex3_clock (snd r) = true
+  /\ existsb (fun f => ex3_clock O + 1000 <? ex3_clock (fetch_tick f)) (snd r) = true
+  /\ fst (unwrap true ex3_scan ex3_get ex3_join ex3_clock 1000 4 (ex3_uri 0)) = NoStream TimedOutDownload.
+Proof. exact unwrap_chain_deadline_pinned_refuted_lemma. Qed.
+Print Assumptions C20_unwrap_chain_deadline_pinned_refuted.
 
 (* the boolean monitor evaluated on implementation traces is a theorem of the model *)
 Theorem C20_fetch_log_ok_model :
@@ -187,8 +268,8 @@ Print Assumptions C20_fetch_log_ok_model.
 
 (* non-vacuity of T3: a two-playlist cycle satisfies the hypotheses and runs to Cycle *)
 Theorem C20_unwrap_nonvacuous :
-  (In ex_a [ex_a; ex_b] /\ closed ex_get ex_join [ex_a; ex_b]
-   /\ all_playlists ex_scan ex_get ex_join [ex_a; ex_b])
+  (In ex_a [ex_a; ex_b] /\ closed true ex_get ex_join [ex_a; ex_b]
+   /\ all_playlists true ex_scan ex_get ex_join [ex_a; ex_b])
   /\ unwrap true ex_scan ex_get ex_join ex_clock 100 3 ex_a =
      (NoStream Cycle,
       [FScan ex_a 1 2 98; FDownload ex_a 1 3 97; FScan ex_b 4 5 95; FDownload ex_b 4 6 94]).
@@ -209,6 +290,23 @@ Theorem C20_tags_total :
     typed_b t = true -> exists tr, convert true uuid t = Ok tr /\ track_valid uuid tr.
 Proof. exact tags_total_lemma. Qed.
 Print Assumptions C20_tags_total.
+
+(* the whole path  scanner taglist -> convert_taglist -> convert_tags_to_track : for every
+   taglist whose values have the GTypes GStreamer registers for the tags (strings / bytes,
+   unsigned numbers, GLib.Date incl. impossible dates, Gst.DateTime of any precision,
+   samples and values of ignored types) the result is a track with valid fields *)
+Theorem C20_taglist_to_track_total :
+  forall (uuid : str -> option str) (raw : list (tagkey * list gvalue)),
+    gst_typed_b raw = true ->
+    exists tr, convert true uuid (convert_taglist raw) = Ok tr /\ track_valid uuid tr.
+Proof. exact taglist_to_track_total_lemma. Qed.
+Print Assumptions C20_taglist_to_track_total.
+
+(* a GLib.Date that datetime.date accepts always becomes a representable date string *)
+Theorem C20_iso_date_ok :
+  forall y m d, valid_date y m d = true -> date_ok (iso_date y m d) = true.
+Proof. exact iso_date_ok_lemma. Qed.
+Print Assumptions C20_iso_date_ok.
 
 (* each scalar field is the validator's verdict on the first value of its tag *)
 Theorem C20_tags_fields_from_tags :
@@ -246,3 +344,34 @@ Theorem C20_tags_nonvacuous :
                              /\ al_name a = Some [65].
 Proof. exact tags_total_nonvacuous. Qed.
 Print Assumptions C20_tags_nonvacuous.
+
+(* the providers around the loop (scheme filter, blacklist, _unwrap_stream,
+   convert_tags_to_track(...).replace(uri, length)): lookup answers [] or exactly one track
+   with the requested uri and valid converted fields; translate_uri answers a uri or None;
+   neither raises nor diverges (request accepted by urlsplit, closed graph, typed tags) *)
+Theorem C20_stream_lookup_total :
+  forall schemes raises blacklisted uuid scan get join tags_of duration_of clock timeout nodes u,
+    raises u = false -> In u nodes -> closed true get join nodes ->
+    (forall s, typed_b (tags_of s) = true) ->
+    lookup true schemes raises blacklisted uuid scan get join tags_of duration_of
+           clock timeout (S (length nodes)) u = Ok LEmpty
+    \/ exists t l,
+        lookup true schemes raises blacklisted uuid scan get join tags_of duration_of
+               clock timeout (S (length nodes)) u = Ok (LTrack u t l)
+        /\ match t with Some tr => track_valid uuid tr | None => True end.
+Proof. exact lookup_total_lemma. Qed.
+Print Assumptions C20_stream_lookup_total.
+
+Theorem C20_stream_translate_uri_total :
+  forall schemes raises blacklisted scan get join clock timeout nodes u,
+    raises u = false -> In u nodes -> closed true get join nodes ->
+    exists r, translate_uri true schemes raises blacklisted scan get join
+                            clock timeout (S (length nodes)) u = Ok r.
+Proof. exact translate_uri_total_lemma. Qed.
+Print Assumptions C20_stream_translate_uri_total.
+
+(* check_uri's scheme test and urlsplit's scheme are one transcription *)
+Theorem C20_has_scheme_is_scheme_of :
+  forall u, has_scheme u = negb (is_nil (scheme_of u)).
+Proof. exact has_scheme_scheme_of. Qed.
+Print Assumptions C20_has_scheme_is_scheme_of.
